@@ -56,6 +56,15 @@ def check_id(r, ctx):
 
 def check_solution_id(r, ctx):
     sol = gs.build_solution(r)
+    _check_solution_id(r, sol, ctx, "")
+    r2 = gs.apply_edit(sol, r)
+    if r2 is not None:
+        # the solution has been printed and written once; it is then edited through its public attributes
+        _check_solution_id(r2, sol, ctx, "after-edit-")
+        ctx.label("edited-after-first-use")
+
+
+def _check_solution_id(r, sol, ctx, tag):
     vehicles = ["%s%d" % (p["model"], p["vtype"]) for p in r["pps"]]
     costs = [p["cost"] for p in r["pps"]]
     sid = gs.reference_id_string(r["scenario_id"])
@@ -63,21 +72,21 @@ def check_solution_id(r, ctx):
                            costs[0] if len(costs) == 1 else "[%s]" % ",".join(costs), sid,
                            r["scenario_id"]["scenario_version"])
     if sol.benchmark_id != exp:
-        raise Violation("solution-benchmark-id", "%r, reference %r" % (sol.benchmark_id, exp))
+        raise Violation(tag + "solution-benchmark-id", "%r, reference %r" % (sol.benchmark_id, exp))
     doc = CommonRoadSolutionWriter(sol).dump(pretty=r["pretty"])
     with warnings.catch_warnings():
         warnings.simplefilter("ignore")
         back = CommonRoadSolutionReader.fromstring(doc)
     if back.benchmark_id != exp:
-        raise Violation("solution-id-roundtrip", "%r -> %r" % (exp, back.benchmark_id))
+        raise Violation(tag + "solution-id-roundtrip", "%r -> %r" % (exp, back.benchmark_id))
     got = [(p.vehicle_model.name, p.vehicle_type.value, p.cost_function.name) for p in back.planning_problem_solutions]
     want = [(p["model"], p["vtype"], p["cost"]) for p in r["pps"]]
     if got != want:
-        raise Violation("solution-vehicles-costs", "%r -> %r" % (want, got))
+        raise Violation(tag + "solution-vehicles-costs", "%r -> %r" % (want, got))
     with warnings.catch_warnings():
         warnings.simplefilter("ignore")
         if not (back.scenario_id == sol.scenario_id) or str(back.scenario_id) != sid:
-            raise Violation("solution-scenario-id", "%r -> %r" % (sid, str(back.scenario_id)))
+            raise Violation(tag + "solution-scenario-id", "%r -> %r" % (sid, str(back.scenario_id)))
     if back.scenario_id.scenario_version != r["scenario_id"]["scenario_version"]:
         raise Violation("solution-version", back.scenario_id.scenario_version)
     ctx.label("cooperative" if len(vehicles) > 1 else "single")
